@@ -43,26 +43,14 @@ package http2
 //@   trusted
 //@   assigns unrestricted, procLog
 //@   ensures procLog == old(procLog) ++ seq[int]{2}
-//@ func (*serverConn).processResetStream :: sc, f -> err
-//@   trusted
-//@   assigns unrestricted, procLog
-//@   ensures procLog == old(procLog) ++ seq[int]{3}
 //@ func (*serverConn).processSettings :: sc, f -> err
 //@   trusted
 //@   assigns unrestricted, procLog
 //@   ensures procLog == old(procLog) ++ seq[int]{4}
-//@ func (*serverConn).processPing :: sc, f -> err
-//@   trusted
-//@   assigns unrestricted, procLog
-//@   ensures procLog == old(procLog) ++ seq[int]{6}
 //@ func (*serverConn).processGoAway :: sc, f -> err
 //@   trusted
 //@   assigns unrestricted, procLog
 //@   ensures procLog == old(procLog) ++ seq[int]{7}
-//@ func (*serverConn).processWindowUpdate :: sc, f -> err
-//@   trusted
-//@   assigns unrestricted, procLog
-//@   ensures procLog == old(procLog) ++ seq[int]{8}
 
 //@ -- what is captured, as values
 //@ pure func capSettings(p seq[byte], n int) seq[metadata.Setting] = ite(n <= 0, seq[metadata.Setting]{}, capSettings(p, n-1) ++ seq[metadata.Setting]{mk(metadata.Setting, settingID(p, n-1), settingVal(p, n-1))})
